@@ -10,7 +10,7 @@ open SJ SJ.Drv SJ.Drv.Mach SJ.Model.Machine SJ.Model.IoFault
     bytes produce when followed by a clean end of input (a Syntax/Data error); never a value. -/
 def judgeFault (kind o oeof : String) : List String :=
   if o == "PANIC" then ["C13 panic"]
-  else if o.startsWith "V" || o == "U" || o == "T" then ["C13 a value was returned although the input ended in an I/O error"]
+  else if o.startsWith "V" || o == "U" || o == "T" || o.startsWith "R" then ["C13 a value was returned although the input ended in an I/O error"]
   else if o == s!"IO:{kind}" then []
   else if o == oeof && ((oeof.splitOn ":").getD 2 "" == "syntax" || (oeof.splitOn ":").getD 2 "" == "data") then []
   else [s!"C13 reader failing with {kind}: got {o}; the same bytes followed by end of input give {oeof}"]
@@ -18,6 +18,19 @@ def judgeFault (kind o oeof : String) : List String :=
 /-- `rfault <cfg> <tgt> <kind> <k> <hex doc> => <outcome>|<outcome with clean EOF>|<fault delivered>` (Value / IgnoredAny) -/
 def rfault : Handler := fun args impl =>
   match args with
+  | [c, "raw", kind, ks, h] =>
+    -- `from_reader::<Box<RawValue>>`: the fault arrives while (or after) the reader holds a raw buffer
+    match ks.toNat?, bytesOfHex h with
+    | some k, some bs =>
+      let m := match rawFault (cfgOfTag c) (bs.take k) with
+        | .io => s!"IO:{kind}"
+        | .err code idx =>
+          let (l, col) := lineCol bs idx
+          s!"E:{hexOfBytes (Gen.message code)}:{catName (Gen.classify code)}:{l}:{col}"
+      match impl.splitOn "|" with
+      | [o, oeof, d] => { model := m ++ "|" ++ oeof ++ "|" ++ d, specs := judgeFault kind o oeof }
+      | _ => bad "obs"
+    | _, _ => bad "decode"
   | [c, t, kind, ks, h] =>
     match tgtOfTag t, ks.toNat?, bytesOfHex h with
     | some tgt, some k, some bs =>
